@@ -96,10 +96,9 @@ func (z *ZodNil[T, R]) MustParse(input any, ctx ...*core.ParseContext) R {
 
 // StrictParse validates input with compile-time type safety.
 func (z *ZodNil[T, R]) StrictParse(input R, ctx ...*core.ParseContext) (R, error) {
-	return engine.ParsePrimitiveStrict(
-		input, &z.internals.ZodTypeInternals, z.expectedType(),
-		nilValidator[T](nil), ctx...,
-	)
+	// StrictParse must answer exactly what Parse answers: the statically typed input is a valid
+	// Parse input, so run the one pipeline.
+	return z.Parse(input, ctx...)
 }
 
 // MustStrictParse panics on validation failure with compile-time type safety.
